@@ -960,10 +960,10 @@ class Run:
 
         return check_block(body)
 
-    def _summary_loop(self, what, body, env, outer=None, markers=True):
+    def _summary_loop(self, what, body, env, outer=None, markers=True, fresh=()):
         """a data-dependent loop: its body is evaluated once from an arbitrary iteration (loop-carried locals are
         unknown at the head), bracketed by loop markers; afterwards the carried locals hold 'whatever the loop left'"""
-        carried = self._assigned_locals(body, env)
+        carried = [n for n in self._assigned_locals(body, env) if n not in fresh]  # (the loop's own pattern variables are new in every iteration)
         exit_assigned = [n for n in carried if self._exit_assigned(body, n)]
         env2 = dict(env)
         for n in carried:
@@ -1011,11 +1011,70 @@ class Run:
         body = [{"k": "ExprStmt", "e": {"k": "If", "cond": e["cond"], "then": e["body"], "else": brk}, "semi": False}]
         return self.e_Loop({"k": "Loop", "body": body, "label": e.get("label")}, env)
 
+    _stage_n = 0
+
+    def _peel_stages(self, ex):
+        """`SRC.filter(c).map(f).filter_map(g)` -> (SRC, [(kind, closure ast)...]) for the adaptors given as closure literals"""
+        stages = []
+        while ex.get("k") == "MethodCall" and ex["m"] in ("filter", "map", "filter_map", "inspect") and len(ex["args"]) == 1 and ex["args"][0].get("k") == "Closure" \
+                and len(ex["args"][0].get("params", [])) == 1:
+            stages.insert(0, (ex["m"], ex["args"][0]))
+            ex = ex["recv"]
+        return ex, stages
+
+    def _stage_stmts(self, stages, env, first):
+        """statements that perform the adaptor stages on the loop item inside the loop body; -> (stmts, name of the final item)"""
+        def path(n):
+            return {"k": "Path", "path": n, "generics": None, "qself": None}
+
+        def ident(n):
+            return {"k": "PIdent", "name": n, "sub": None, "byref": False, "mut": False}
+
+        stmts = []
+        cur = first
+        cont = {"k": "Block", "body": [{"k": "ExprStmt", "e": {"k": "Continue", "label": None}, "semi": True}], "label": None}
+        for kind, cl in stages:
+            Run._stage_n += 1
+            fn = "__stage%d" % Run._stage_n
+            env[fn] = self.eval(cl, env)
+            call = {"k": "Call", "f": path(fn), "args": [path(cur)]}
+            if kind == "filter":
+                stmts.append({"k": "ExprStmt", "e": {"k": "If", "cond": {"k": "Unary", "op": "!", "e": call}, "then": cont["body"], "else": None}, "semi": False})
+            elif kind == "inspect":
+                stmts.append({"k": "ExprStmt", "e": call, "semi": True})
+            elif kind == "map":
+                nxt = cur + "m"
+                stmts.append({"k": "Let", "pat": ident(nxt), "init": call, "else": None})
+                cur = nxt
+            else:  # filter_map
+                nxt = cur + "f"
+                arms = [{"pat": {"k": "PTupleStruct", "path": "Some", "elems": [ident("__v")]}, "guard": None, "body": path("__v")},
+                        {"pat": {"k": "PIdent", "name": "None", "sub": None, "byref": False, "mut": False}, "guard": None, "body": {"k": "Continue", "label": None}}]
+                stmts.append({"k": "Let", "pat": ident(nxt), "init": {"k": "Match", "e": call, "arms": arms}, "else": None})
+                cur = nxt
+        return stmts, cur
+
     def e_For(self, e, env):
+        src, stages = self._peel_stages(e["iter"]) if e["iter"].get("k") == "MethodCall" else (e["iter"], [])
+        if stages:
+            # `for x in SRC.filter(c).map(f) { B }` is `for it in SRC { if !c(it) { continue }; let x = f(it); B }`
+            env2 = dict(env)
+            Run._stage_n += 1
+            first = "__it%d" % Run._stage_n
+            stmts, last = self._stage_stmts(stages, env2, first)
+            body = stmts + [{"k": "Let", "pat": e["pat"], "init": {"k": "Path", "path": last, "generics": None, "qself": None}, "else": None}] + list(e["body"])
+            node = {"k": "For", "pat": {"k": "PIdent", "name": first, "sub": None, "byref": False, "mut": False}, "iter": src, "body": body, "label": e.get("label")}
+            r = self.e_For(node, env2)
+            for k2 in list(env.keys()):
+                if k2 in env2:
+                    env[k2] = env2[k2]
+            return r
         env2 = dict(env)
         it = self.eval(e["iter"], env2) if e["iter"]["k"] != "Range" else ("unk", show_env(e["iter"], env2))
         self.match(e["pat"], ("unk", "item"), env2)
-        return self._summary_loop("for _ in " + showv(it), e["body"], env2, env)
+        fresh = []
+        _pnames(e["pat"], fresh)
+        return self._summary_loop("for _ in " + showv(it), e["body"], env2, env, fresh=fresh)
 
     def e_Try(self, e, env):
         """`x?` is `match x { Some(v) => v, None => return None }` (Ok / Err for a Result): the same canonical test"""
@@ -1289,6 +1348,26 @@ class Run:
 
     def e_MethodCall(self, e, env):
         m = e["m"]
+        if m == "collect" and not e["args"] and self.cfg.generic_loops and e["recv"].get("k") == "MethodCall":
+            src, stages = self._peel_stages(e["recv"])
+            if stages:
+                # `SRC.filter(c).map(f).collect()` is `{ let mut v = Vec::new(); for it in SRC { ..stages..; v.push(it) } v }`
+                def path(n):
+                    return {"k": "Path", "path": n, "generics": None, "qself": None}
+                Run._stage_n += 1
+                first, acc = "__it%d" % Run._stage_n, "__acc%d" % Run._stage_n
+                env2 = dict(env)
+                stmts, last = self._stage_stmts(stages, env2, first)
+                push = {"k": "ExprStmt", "e": {"k": "MethodCall", "recv": path(acc), "m": "push", "args": [path(last)], "turbofish": None}, "semi": True}
+                loop = {"k": "For", "pat": {"k": "PIdent", "name": first, "sub": None, "byref": False, "mut": False}, "iter": src, "body": stmts + [push], "label": None}
+                blk = [{"k": "Let", "pat": {"k": "PIdent", "name": acc, "sub": None, "byref": False, "mut": True}, "init": {"k": "Call", "f": path("Vec::new"), "args": []}, "else": None},
+                       {"k": "ExprStmt", "e": loop, "semi": True},
+                       {"k": "ExprStmt", "e": path(acc), "semi": False}]
+                r = self.block(blk, env2)
+                for k2 in list(env.keys()):
+                    if k2 in env2:
+                        env[k2] = env2[k2]
+                return r
         # noise wrappers
         if m in NOISE_METHODS and not e["args"]:
             return self.eval(e["recv"], env)
